@@ -385,6 +385,16 @@ class CallMixin:
         return self.method_special(recv, name, args, kwargs, node, fr)
 
     def method_special(self, recv, name, args, kwargs, node, fr):
+        if isinstance(recv, VObj) and recv.cls == "<opaque>" and recv.ref.endswith(".helpers"):
+            # MarkdownIt.helpers is the markdown_it.helpers module (main.py: `self.helpers = helpers`): a call through it is a
+            # call of the re-exported function
+            try:
+                mi, fn, canon = S.resolve_function("markdown_it.helpers." + name)
+            except S.SourceError:
+                canon = None
+            if canon and canon in self.registry:
+                self.assumption_log.add("md.helpers is the markdown_it.helpers module (attribute never rebound)")
+                return self.call_pkg(canon, args, kwargs, node, fr)
         if isinstance(recv, VObj) and recv.cls == "<charclass>" and name == "search" and 1 <= len(args) <= 2 and isinstance(args[0], VStr):
             # pattern.search(s, pos): None, or a match whose start() is the least index >= pos with s[i] in the class
             codes = self.ghost[("charclass", recv.ref)]
@@ -755,7 +765,7 @@ class CallMixin:
             self.old_state = saved_old
 
 
-OPAQUE_PURE_METHODS = {"search", "match", "fullmatch", "group", "start", "end", "get", "lower", "upper", "strip", "sub", "append", "pop"}
+OPAQUE_PURE_METHODS = {"search", "match", "fullmatch", "group", "start", "end", "get", "lower", "upper", "strip", "sub", "append", "pop", "setdefault"}
 
 
 class VStrOrList(V):
